@@ -525,6 +525,7 @@ def correspond(ctx):
     stream_history(ctx, programs)
     stream_multi(ctx, programs)
     stream_mapping(ctx, programs)
+    stream_embed(ctx, programs)
     ctx.cov['programs'] = len(programs)
     ctx.cov['program_names'] = sorted(programs)
 
@@ -1219,6 +1220,560 @@ def stream_mapping(ctx, programs):
             disagree(ctx, 'get_mapping', f'{text} on {name}: real {real[:200]} model {mm[:200]}',
                      {'kind': 'match', 'smarts': text, 'mol': wire.mol_to_ints(m)})
 
+
+
+# ------------------------------------------------------------------------------------------------
+# whole patterns (branches, ring closures, query bonds on closures) on polycyclic / cage targets
+# ------------------------------------------------------------------------------------------------
+# The 1- and 2-atom streams above never let the matcher take a ring-closure decision: which candidate atom may close a ring, onto
+# which already matched partners, through which bond. Both encodings of the query semantics have their own code for that (the
+# `query_closures` comparison of `_get_mapping`, the closure masks / scratch array of the bit-mask matcher), and it is only
+# exercised when the target offers candidates with the wrong NUMBER of bonds to matched atoms and candidates with the right number
+# but the wrong PARTNERS in one search: compact cages (quadricyclane, basketane, prismanes, propellanes, random chord-rich graphs).
+
+CAGE_SMILES = ['C1C2C3C2C4C1C34', 'C1CC2C3C4C1C5C2C3C45', 'C12C3C1C4C2C34', 'C12C3C4C1C5C2C3C45', 'C12C3C1C23', 'C1C2CC12', 'C1CC2CC12',
+               'C1C23CC12C3', 'C1C2CC1C2', 'C1CC12CC2', 'C1CC2CCC1C2', 'C1C2CC3CC1CC(C2)C3', 'C1CC2CC3CCC2CC13', 'C1CC2CCC1CC2',
+               'O1C2C3C2C4C1C34', 'N1C2C3C2C4C1C34', 'C1=CC2C3C1C23', 'C1=CC2C=CC12', 'C1C2C=CC1C=C2', 'C1=CC2C=CC1C=C2', 'C1C2C3CC1C23',
+               'C1C2C3C1C3C2', 'C1CC2CC3CC1C23', 'C1C2C3CC4C1C4C23', 'C1C2C3C4C1C5C2C5C34', 'C1CC23CC2C13', 'C1C2CC3C1C3C2',
+               'C1CC2C3CC1C23', 'C1C2C3C2C13', 'CC1C2C3C2C4C1C34', 'C1C2C3C2C4C1C34.C1CC1', 'C1CC2C1C1CC21', 'O=C1C2C3C2C4C1C34',
+               'C1OC2C3C4C1C5C2C3C45', 'C1CC2C3C4C1C5C2C3N45', 'C12C3C4C5C1C6C2C3C4C56', 'C1CCC2CCCCC2C1', 'C1CC2(C1)CC2', 'C1C2C1C2']
+
+RING_PATTERNS = ['C1CC1', 'C1CCC1', 'C1CCCC1', 'C1CCCCC1', 'C1CCCCCC1', 'C1CC2CC12', 'C1CC2CC2C1', 'C1CC2CCC12', 'C1CCC2CC2C1', 'C1C2CC12', 'C-,=1CCC1',
+                 'C1CCOC1', 'C1CCNC1', '[C]1[C][C][C][C]1', '[A]1[A][A][A]1', '[A]1[A][A][A][A]1', '[A]1[A][A][A][A][A]1', '[C;D3]1[C;D3][C;D3]1',
+                 '[C;D2]1[C;D3][A][A][C;D3]1', 'C-;@1CCC-;@1', 'C1CC-;@1', 'C1CCC-,=;@1', 'C=,#1CCC1', 'C1CC(C)C1', 'CC1CCC1C', 'C1C(C)C1C',
+                 'C(C1)CC1', 'C1(CC1)C', '[C;h1]1[C;h1][C;h1]1', '[C;h1,h2]1[C][C][C;h1]1', '[A;x0]1[A][A;D3,D4]1', '[C;z1]1[C;z1][C;z2]=[C]1',
+                 'C1CC=C1', 'C=1CCC=1', 'C%10CCC%10', 'C12CC1C2', 'C1CC11CC1', 'C1C2C1C2', 'C1CC2C1C2', '[C,N]1[C][C][C,O]1', 'C1CC1C1CC1',
+                 'C1C[C;D3]2[C;D3]C12', '[A]1[A][A]2[A][A]12', 'C!=1CC!=1', 'C1CC!-1', 'C1CCC2C(C1)C2', '[C;r3]1[C;r3][C;r3]1', '[C;r3]1[C][C][C]1']
+
+
+def prismane_edges(k):
+    e = [(i + 1, (i + 1) % k + 1) for i in range(k)] + [(k + i + 1, k + (i + 1) % k + 1) for i in range(k)] + [(i + 1, k + i + 1) for i in range(k)]
+    return [tuple(sorted(x)) for x in e]
+
+
+def random_cage(rng):
+    """compact polycyclic skeleton: a small ring, then chords and short bridges between atoms that still have a free valence
+    (chord-rich: many atoms have several bonds to any connected set of already matched atoms). Some O / N / double bonds."""
+    n_max = rng.randint(5, 11)
+    r = rng.randint(3, 6)
+    edges = [(i, i % r + 1) for i in range(1, r + 1)]
+    deg = {i: 2 for i in range(1, r + 1)}
+    have = {frozenset(e) for e in edges}
+    nxt = r + 1
+    for _ in range(rng.randint(2, 6)):
+        free = [v for v in deg if deg[v] < 4]
+        if len(free) < 2:
+            break
+        a, b = rng.sample(free, 2)
+        k = rng.choice([0, 0, 1, 1, 2])
+        if nxt + k - 1 > n_max:
+            k = 0
+        if k == 0 and frozenset((a, b)) in have:
+            continue
+        chain = [a] + list(range(nxt, nxt + k)) + [b]
+        nxt += k
+        for x, y in zip(chain, chain[1:]):
+            edges.append((x, y))
+            have.add(frozenset((x, y)))
+            deg[x] = deg.get(x, 0) + 1
+            deg[y] = deg.get(y, 0) + 1
+    elements, orders = {}, {}
+    for v, d in deg.items():
+        u = rng.random()
+        if d <= 2 and u < 0.08:
+            elements[v] = 'O'
+        elif d <= 3 and u < 0.18:
+            elements[v] = 'N'
+    used = set()
+    for x, y in edges:
+        if (rng.random() < 0.08 and deg[x] <= 3 and deg[y] <= 3 and x not in used and y not in used
+                and elements.get(x, 'C') == 'C' and elements.get(y, 'C') == 'C'):
+            orders[(x, y)] = 2
+            used |= {x, y}
+    return edges, elements, orders
+
+
+def cage_molecules(ctx):
+    if 'cage_mols' in _state:
+        return _state['cage_mols']
+    rng = ctx.rng
+    out = []
+    for s in CAGE_SMILES:
+        m = molgen.parse(s)
+        if m is not None:
+            out.append((s, m))
+    for k in (3, 4, 5, 6):
+        out.append((f'[{k}]prismane', molgen.from_edges(prismane_edges(k))))
+    for i in range(30 if ctx.quick else 400):
+        try:
+            e, els, ords = random_cage(rng)
+            out.append((f'cage{i}', molgen.from_edges(e, els, ords)))
+        except Exception:
+            continue
+    for i in range(6 if ctx.quick else 60):
+        try:
+            m = molgen.from_edges(molgen.ring_assembly(rng, max_rings=4))
+            if len(m) <= 22:
+                out.append((f'assembly{i}', m))
+        except Exception:
+            continue
+    for name, m in rng.sample(out, min(len(out), 20 if ctx.quick else 150)):
+        try:
+            r, _ = molgen.renumber(rng, m)
+            out.append((name + '/renum', r))
+        except Exception:
+            continue
+    for _, m in out:
+        m.calc_labels()
+    _state['cage_mols'] = out
+    return out
+
+
+ORGANIC = ('Cl', 'Br', 'B', 'C', 'N', 'O', 'P', 'S', 'F', 'I')
+
+
+def doc_parse_pattern(text):
+    """Documented reading of a one-component pattern: bracket atoms (doc_parse_atom) or plain organic-subset symbols (= that element,
+    neutral, no other constraint), documented bond tokens (none = single bond), branches, ring-closure digits / %nn with the bond
+    token before either digit (one specification suffices, two must be identical). Returns (atoms, bonds) with
+    bonds = {(i, j): (order set, ring mark)}, i < j positions in writing order; None = outside this subset."""
+    import re
+    toks = {t + r for t in BOND_DOC if t for r in ('', ';@', ';!@')}
+    atoms, bonds, stack, opened = [], {}, [], {}
+    prev, pend, i = None, None, 0
+
+    def spec(t):
+        if t is None:
+            return (frozenset({1}), None)
+        base, _, rm = t.partition(';')
+        return (frozenset(BOND_DOC[base]), {'': None, '@': True, '!@': False}[rm])
+
+    def join(a, b, sp):
+        k = (min(a, b), max(a, b))
+        if a == b or k in bonds:
+            return False
+        bonds[k] = sp
+        return True
+
+    while i < len(text):
+        c = text[i]
+        if c == '[':
+            j = text.find(']', i)
+            if j < 0:
+                return None
+            d = doc_parse_atom(text[i + 1:j])
+            if d is None or d['stereo'] is not None or d['mapping'] is not None or d['masked']:
+                return None
+            i = j + 1
+        elif c.isalpha():
+            sym = next((s for s in ORGANIC if text.startswith(s, i)), None)
+            if sym is None:
+                return None
+            d = doc_parse_atom(sym)
+            i += len(sym)
+        elif c == '(':
+            if prev is None or pend is not None:
+                return None
+            stack.append(prev)
+            i += 1
+            continue
+        elif c == ')':
+            if not stack or pend is not None:
+                return None
+            prev = stack.pop()
+            i += 1
+            continue
+        elif c.isdigit() or c == '%':
+            if c == '%':
+                mt = re.match(r'%(\d\d)', text[i:])
+                if not mt:
+                    return None
+                num, i = int(mt.group(1)), i + 3
+            else:
+                num, i = int(c), i + 1
+            if prev is None:
+                return None
+            if num in opened:
+                a, t0 = opened.pop(num)
+                if t0 is not None and pend is not None and t0 != pend:
+                    return None
+                if not join(a, prev, spec(pend if pend is not None else t0)):
+                    return None
+            else:
+                opened[num] = (prev, pend)
+            pend = None
+            continue
+        else:
+            mt = max((t for t in toks if text.startswith(t, i)), key=len, default=None)
+            if mt is None or pend is not None or prev is None:
+                return None
+            pend = mt
+            i += len(mt)
+            continue
+        atoms.append(d)
+        if prev is not None:
+            if not join(prev, len(atoms) - 1, spec(pend)):
+                return None
+        elif pend is not None:
+            return None
+        pend = None
+        prev = len(atoms) - 1
+    if opened or stack or pend is not None or not atoms:
+        return None
+    return atoms, bonds
+
+
+def _mol_view(mol):
+    """attributes / bonds / which bonds lie on a cycle, computed independently of the library's labels (cached per molecule)"""
+    key = ('view', id(mol))
+    if key in _state:
+        return _state[key][1]
+    attrs = {n: oracle_attrs(mol, n) for n in mol._atoms}
+    mb = {(n, m): b.order for n, ms in mol._bonds.items() for m, b in ms.items()}
+    adj = {k: [m for m, bb in v.items() if bb.order != 8] for k, v in mol._bonds.items()}
+    ring = {}
+    for (n, m), o in mb.items():
+        if o == 8 or (m, n) in ring:
+            ring[(n, m)] = ring.get((m, n))
+            continue
+        seen, st, conn = {n}, [n], False
+        while st and not conn:
+            z = st.pop()
+            for w in adj[z]:
+                if (z, w) in ((n, m), (m, n)):
+                    continue
+                if w == m:
+                    conn = True
+                    break
+                if w not in seen:
+                    seen.add(w)
+                    st.append(w)
+        ring[(n, m)] = conn
+    v = (attrs, mb, ring)
+    _state[key] = (mol, v)       # keeps the molecule alive so that id() stays unique
+    return v
+
+
+def doc_embeddings(pat, mol):
+    """all embeddings the documentation promises: injective; every pattern atom's documented meaning holds on its image; every pattern
+    bond lies on a molecule bond of a listed order whose ring state (on a cycle or not) agrees with the ring mark; atoms the pattern
+    does not join are not bonded in the molecule (the search is for induced subgraphs — property C07). Set of tuples (image of the
+    i-th written atom), or None when some atom / bond test is undetermined (ring sizes that depend on the choice of the SSSR)."""
+    atoms, bonds = pat
+    attrs, mb, ring = _mol_view(mol)
+    tn = list(mol._atoms)
+    am = []
+    for d in atoms:
+        row = {n: oracle_match(d, attrs[n]) for n in tn}
+        if any(v is None for v in row.values()):
+            return None
+        am.append(row)
+    earlier = [[j for j in range(i) if (j, i) in bonds] for i in range(len(atoms))]
+    found = set()
+    undet = []
+
+    def grow(i, img):
+        if i == len(atoms):
+            found.add(tuple(img))
+            return
+        cand = tn if not earlier[i] else [m for m in mol._bonds[img[earlier[i][0]]]]
+        for n in cand:
+            if n in img or not am[i][n]:
+                continue
+            ok = True
+            for j in range(i):
+                o = mb.get((img[j], n))
+                sp = bonds.get((j, i))
+                if sp is None:
+                    if o is not None:
+                        ok = False
+                        break
+                    continue
+                if o is None or o not in sp[0]:
+                    ok = False
+                    break
+                if sp[1] is not None:
+                    if o == 8:
+                        undet.append(1)
+                        ok = False
+                        break
+                    if ring[(img[j], n)] != sp[1]:
+                        ok = False
+                        break
+            if ok:
+                img.append(n)
+                grow(i + 1, img)
+                img.pop()
+    grow(0, [])
+    return None if undet else found
+
+
+def check_embed(text, mol, default=False):
+    """property oracle for a whole one-component pattern of documented atoms / bond tokens / branches / ring closures.
+    None = agrees (or outside the documented subset / undetermined), else a description."""
+    from collections import Counter
+    from chython import smarts
+    body = text.split()[0]
+    if ' ' in text.strip():
+        return None
+    pat = doc_parse_pattern(body)
+    if pat is None or (default and accel_gap(body, mol)):
+        return None
+    atoms, bonds = pat
+    path = 'default' if default else 'reference'
+    try:
+        q = smarts(body)
+    except Exception as e:
+        return f'{body}: documented pattern rejected: {type(e).__name__}: {e}'
+    nums = list(q._atoms)
+    if len(nums) != len(atoms):
+        return f'{body}: {len(atoms)} atoms written, {len(nums)} read'
+    read = {(min(nums.index(n), nums.index(m)), max(nums.index(n), nums.index(m))): (frozenset(b.order), b.in_ring) for n, m, b in q.bonds()}
+    if read != bonds:
+        k = next(iter(set(read.items()) ^ set(bonds.items())))
+        return f'{body}: bond between written atoms {k[0][0] + 1} and {k[0][1] + 1} read as {read.get(k[0])}, documented {bonds.get(k[0])}'
+    exp = doc_embeddings(pat, mol)
+    if exp is None:
+        return None
+    got = Counter(tuple(mp[k] for k in nums) for mp in _mapping(q, mol, default))
+    dup = [k for k, c in got.items() if c > 1]
+    if dup:
+        return f'{body} ({path} path): mapping {dup[0]} returned {got[dup[0]]} times'
+    extra, missing = set(got) - exp, exp - set(got)
+    if extra:
+        x = sorted(extra)[0]
+        _, mb, _ = _mol_view(mol)
+        why = next((f'pattern bond between written atoms {i + 1} and {j + 1} lies on molecule atoms {x[i]}, {x[j]} which are not bonded'
+                    for (i, j) in bonds if (x[i], x[j]) not in mb), 'it is not an embedding by the documented meaning')
+        return f'{body} ({path} path): returns {x} ({len(extra)} such): {why}'
+    if missing:
+        return f'{body} ({path} path): {len(missing)} documented embeddings are not returned, e.g. {sorted(missing)[0]}'
+    return None
+
+
+def cut_pattern_text(rng, mol, size, drop=False):
+    """a connected piece of `mol` (grown towards atoms with several bonds into the piece, so it carries cycles) written as a SMARTS
+    text in a random depth-first order: ring-closure digits, branches, atoms and bonds spelled with documented primitives that are
+    mostly true for the source atoms (some deliberately off by one); drop=True omits one cycle bond (non-induced in its source)."""
+    attrs, mb, ring = _mol_view(mol)
+    start = rng.choice(list(mol._atoms))
+    piece = [start]
+    while len(piece) < size:
+        front = {}
+        for n in piece:
+            for m in mol._bonds[n]:
+                if m not in piece:
+                    front[m] = front.get(m, 0) + 1
+        if not front:
+            break
+        ws = list(front)
+        piece.append(rng.choices(ws, [front[w] ** 2 for w in ws])[0])
+    pb = {frozenset((n, m)) for n in piece for m in mol._bonds[n] if m in piece}
+    if drop:
+        cyc = [e for e in pb if ring[tuple(e)]]
+        if cyc:
+            e = rng.choice(sorted(cyc, key=sorted))
+            rest = pb - {e}
+            a = next(iter(e))
+            seen, st = {a}, [a]
+            while st:
+                x = st.pop()
+                for f in rest:
+                    if x in f:
+                        y = next(iter(f - {x}))
+                        if y not in seen:
+                            seen.add(y)
+                            st.append(y)
+            if len(seen) == len(piece):
+                pb = rest
+    adj = {n: [m for m in piece if frozenset((n, m)) in pb] for n in piece}
+
+    def atom_text(n):
+        a, at = mol._atoms[n], attrs[n]
+        sym = a.atomic_symbol
+        off = (lambda v, lo, hi: min(hi, max(lo, v + rng.choice([-1, 1])))) if rng.random() < 0.15 else (lambda v, lo, hi: v)
+        chg = '' if not a.charge else ('+' if a.charge > 0 else '-') + (str(abs(a.charge)) if abs(a.charge) > 1 else '')
+        u = rng.random()
+        if u < 0.3 and sym in ORGANIC and not a.charge and not a.is_radical:
+            return sym
+        if a.is_radical:
+            return '[A]'          # radical marks need the CX block: not spelled here, this atom cannot match its source
+        if u < 0.45:
+            return f'[{sym}{chg}]'
+        if u < 0.55 and not a.charge:
+            return '[A]'
+        head = rng.choice([sym, sym, 'A', ','.join(dict.fromkeys(rng.sample(['C', 'N', 'O'], 2) + [sym]))]) + chg
+        prims = []
+        for p in rng.sample('DhxzrR', rng.choice([1, 1, 2])):
+            if p == 'D':
+                v = off(at['neighbors'], 0, 14)
+                prims.append(f'D{v}' if rng.random() < 0.6 else f'D{v},D{min(14, v + 1)}' if v < 14 else f'D{v}')
+            elif p == 'h' and at['hydrogens'] is not None and at['hydrogens'] <= 4:
+                prims.append(f'h{off(at["hydrogens"], 0, 4)}')
+            elif p == 'x':
+                prims.append(f'x{off(at["hetero"], 0, 14)}')
+            elif p == 'z':
+                v = off(at['hyb'], 1, 4)
+                prims.append(f'z{v}' if rng.random() < 0.6 else ','.join(f'z{w}' for w in sorted({v, rng.randint(1, 4)})))
+            elif p == 'r' and at['on_cycle'] and at['cycle_sizes']:
+                prims.append(f'r{min(at["cycle_sizes"])}' if rng.random() < 0.8 else f'r{max(at["cycle_sizes"]) + 1}')
+            elif p == 'R' and not at['on_cycle']:
+                prims.append('!R')
+        return '[' + ';'.join([head] + prims) + ']'
+
+    def bond_text(n, m):
+        o = mb[(n, m)]
+        true = {1: ['', '', '-', '-,=', '-,:', '!=', '!#', '!:'], 2: ['=', '=', '-,=', '=,#', '!-', '!#'], 3: ['#', '=,#', '!-', '!='],
+                4: [':', '-,:', '!-', '!='], 8: ['~']}[o]
+        t = rng.choice(true) if rng.random() < 0.9 else rng.choice(['-', '=', '-,=', '!-', ':'])
+        if t and o != 8 and rng.random() < 0.3:
+            r = ring[(n, m)]
+            if rng.random() < 0.12:
+                r = not r
+            t += ';@' if r else ';!@'
+        return t
+
+    seen, counter = [], [0]
+    closing = {n: [] for n in piece}          # n -> [(digit text, bond text or '')] written after the atom
+    children = {n: [] for n in piece}
+    done = set()
+
+    def visit(n, parent):
+        seen.append(n)
+        nb = list(adj[n])
+        rng.shuffle(nb)
+        for m in nb:
+            e = frozenset((n, m))
+            if m == parent or e in done:
+                continue
+            if m in seen:               # m is an ancestor, written earlier: it opens the digit, n closes it
+                done.add(e)
+                counter[0] += 1
+                dg = str(counter[0]) if counter[0] < 10 else f'%{counter[0]}'
+                bt = bond_text(n, m)
+                side = rng.choice(['open', 'close', 'both']) if bt else 'open'
+                closing[m].append((dg, bt if side in ('open', 'both') else ''))
+                closing[n].append((dg, bt if side in ('close', 'both') else ''))
+            else:
+                done.add(e)
+                children[n].append(m)
+                visit(m, n)
+
+    visit(start, None)
+
+    def write(n):
+        s = atom_text(n) + ''.join(bt + dg for dg, bt in closing[n])
+        ch = children[n]
+        for c in ch[:-1]:
+            s += '(' + bond_text(n, c) + write(c) + ')'
+        if ch:
+            s += bond_text(n, ch[-1]) + write(ch[-1])
+        return s
+    return write(start)
+
+
+def embed_cases(ctx):
+    """(pattern text, target name, target): the ring / closure patterns x every cage, and patterns cut from the cages"""
+    if 'embed_cases' in _state:
+        return _state['embed_cases']
+    rng = ctx.rng
+    cages = cage_molecules(ctx)
+    out = []
+    for t in RING_PATTERNS:
+        for name, m in (cages if not ctx.quick else cages[:len(CAGE_SMILES) + 4] + rng.sample(cages, 12)):
+            out.append((t, name, m))
+    for name, m in cages:
+        for k in range(4 if ctx.quick else 12):
+            try:
+                t = cut_pattern_text(rng, m, rng.randint(3, min(8, len(m))), drop=(k % 3 == 2))
+            except Exception as e:           # a generator problem must be visible, not silently thin the stream
+                ctx.notes.append(f'cut_pattern_text raised {type(e).__name__}: {e}')
+                continue
+            tname, tm = (name, m) if k % 4 else rng.choice(cages)
+            out.append((t, tname, tm))
+    _state['embed_cases'] = out
+    return out
+
+
+def stream_embed(ctx, programs):
+    """whole patterns: real reference path vs the Lean model (`mn`: smarts() model -> C07's matcher model over C08's comparison
+    models), and the public default path (accelerated matcher) vs the reference path"""
+    from chython import smarts
+    programs.add('QueryContainer.get_mapping (ring / branch patterns)')
+    lines, reals, metas = [], [], []
+    mol_ints = {}
+    for text, name, m in embed_cases(ctx):
+        try:
+            q = smarts(text)
+        except Exception as e:
+            if doc_parse_pattern(text) is not None:
+                disagree(ctx, 'pattern/query-construction', f'{text}: {type(e).__name__}: {e}', {'kind': 'embed', 'smarts': text, 'mol': wire.mol_to_ints(m)})
+            else:
+                ctx.dist('embed:text-rejected')
+            continue
+        nums = list(q._atoms)
+        if id(m) not in mol_ints:
+            mol_ints[id(m)] = (mol_rings_ints(m), L([len(c) for c in m.connected_components]) + [x for c in m.connected_components for x in c])
+        case = {'kind': 'embed', 'smarts': text, 'mol': wire.mol_to_ints(m)}
+        try:
+            ref = sorted(tuple(mp[k] for k in nums) for mp in q.get_mapping(m, automorphism_filter=False, _cython=False))
+        except Exception as e:
+            disagree(ctx, 'pattern/raises', f'{text} on {name}: {type(e).__name__}: {e}', case)
+            continue
+        if accel_gap(text, m):
+            ctx.dist('embed:default-path-outside-accelerated-domain')
+        else:
+            try:
+                cm = sorted(tuple(mp[k] for k in nums) for mp in q.get_mapping(m, automorphism_filter=False))
+                why = '' if cm == ref else (f'{len(cm)} mappings vs {len(ref)} in the reference path; only default: '
+                                            f'{sorted(set(cm) - set(ref))[:2]} only reference: {sorted(set(ref) - set(cm))[:2]}')
+            except Exception as e:
+                cm, why = None, f'{type(e).__name__}: {e}'
+            ctx.dist('embed:default-path-agrees' if cm == ref else 'embed:default-path-differs')
+            if cm != ref:
+                disagree(ctx, 'get_mapping-default-path', f'{text} on {name}: {why}', dict(case, default=True))
+        ctx.dist('embed:with-hits' if ref else 'embed:no-hit')
+        ctx.dist('embed:closures=%d' % min(3, len(list(q.bonds())) - len(nums) + 1))
+        mi, comps = mol_ints[id(m)]
+        lines.append(line('mn', L(cps(text)) + mi + comps))
+        reals.append(ref)
+        metas.append((text, name, m))
+    resp = core.run_driver('C08', lines)
+    for (text, name, m), ref, model in zip(metas, reals, resp):
+        mm = model.strip()
+        ctx.count(('embed', text, tuple(wire.mol_to_ints(m))), nontrivial=bool(ref), n=max(1, len(ref)))
+        if mm == 'stereo':
+            ctx.dist('embed:stereo-pattern-skipped')
+            continue
+        if mm.startswith('ok'):
+            got = sorted(tuple(int(x) for x in part.split()) for part in mm[2:].split(';') if part.strip())
+        else:
+            got = mm
+        if len(ctx.cov['samples']) < 8 and len(ref) > 1:
+            ctx.sample({'stream': 'get_mapping-pattern', 'smarts': text, 'molecule': name, 'mappings': len(ref)})
+        if got != ref:
+            disagree(ctx, 'get_mapping-pattern', f'{text} on {name}: real {str(ref)[:200]} model {str(got)[:200]}',
+                     {'kind': 'embed', 'smarts': text, 'mol': wire.mol_to_ints(m)})
+
+
+def embed_search(ctx, t_end, seeds):
+    """property oracle over whole patterns: first the disagreeing cases, then the cage cases, both paths"""
+    import time
+    todo = [(c['smarts'], 'case', wire.ints_to_mol(c['mol'], calc=True)[0], [True] if c.get('default') else [False, True])
+            for c in seeds if c.get('kind') == 'embed']
+    todo += [(t, n, m, [False, True]) for t, n, m in embed_cases(ctx)]
+    for text, name, m, paths in todo:
+        if time.time() > t_end or any(f.signature.startswith('C08/pattern-') for f in ctx.failures):
+            return
+        for default in paths:
+            try:
+                bad = check_embed(text, m, default)
+            except Exception as e:
+                bad = f'{text} on {name}: {type(e).__name__}: {e}'
+            if bad:
+                ctx.fail('C08/pattern-match-differs-from-documented-meaning' + ('/default-path' if default else ''), f'on {name}: {bad}',
+                         {'kind': 'embed', 'smarts': text, 'mol': wire.mol_to_ints(m), 'default': default})
+                break
 
 
 # ------------------------------------------------------------------------------------------------
@@ -2029,6 +2584,8 @@ def search(ctx):
                     break
         except Exception as e:
             ctx.notes.append(f'search on a disagreeing case raised {type(e).__name__}: {e}')
+    # 2a'. whole patterns (ring closures, branches) on cage targets, both paths — own share of the budget
+    embed_search(ctx, min(t_end, time.time() + (25 if ctx.quick else 120)), seeds)
     # 2. matching: documented single-atom patterns on small molecules vs the independent attribute computation
     mols = [(n, m) for n, m in molecules(ctx) if len(m) <= 30]
     pats = list(dict.fromkeys([t for t in texts if t.count('[') == 1] + [t for t, r in primitive_queries(ctx) if not r]))
@@ -2454,6 +3011,17 @@ def probe(inp):
             n, exp, got = bad[0]
             return True, f'{inp["smarts"]} atom {n}: documented meaning {"match" if exp else "no match"}, get_mapping {"match" if got else "no match"}'
         return False, f'{inp["smarts"]}: get_mapping agrees with the documented meaning on every atom'
+    if kind == 'embed':
+        mol, _ = wire.ints_to_mol(inp['mol'], calc=True)
+        bad = None
+        for dflt in ([bool(inp['default'])] if 'default' in inp else [False, True]):
+            try:
+                bad = check_embed(inp['smarts'], mol, dflt)
+            except Exception as e:
+                bad = f'{inp["smarts"]} raises {type(e).__name__}: {e}'
+            if bad:
+                break
+        return bool(bad), bad or f'{inp["smarts"]}: get_mapping returns exactly the documented embeddings (or the case is undetermined)'
     if kind == 'bondmatch':
         mol, _ = wire.ints_to_mol(inp['mol'], calc=True)
         try:
